@@ -118,7 +118,7 @@ func newApplierEnv(seed int64, td uint64, variant int) *applierEnv {
 		proto:   p,
 		// (the applier parses ANCHORED operations: a time validator, which judges requests that are not anchored
 		// yet, has no say - the one installed refuses everything)
-		applier: operationapplier.New(p, operationparser.New(p, operationparser.WithAnchorTimeValidator(refusingTimeValidator{})), doccomposer.New()),
+		applier: operationapplier.New(p, operationparser.New(p, operationparser.WithAnchorTimeValidator(refusingTimeValidator{}), operationparser.WithAnchorOriginValidator(refusingOriginValidator{})), doccomposer.New()),
 		pubOps:  []*operation.AnchoredOperation{{Type: operation.TypeCreate, UniqueSuffix: "pub", CanonicalReference: "p0", TransactionTime: 1}},
 		unpub:   []*operation.AnchoredOperation{{Type: operation.TypeUpdate, UniqueSuffix: "unpub", TransactionTime: 2}},
 	}
@@ -378,7 +378,7 @@ func (e *applierEnv) tightApplier(size uint) *operationapplier.Applier {
 
 	p := e.proto
 	p.MaxDeltaSize = size
-	a := operationapplier.New(p, operationparser.New(p, operationparser.WithAnchorTimeValidator(refusingTimeValidator{})), doccomposer.New())
+	a := operationapplier.New(p, operationparser.New(p, operationparser.WithAnchorTimeValidator(refusingTimeValidator{}), operationparser.WithAnchorOriginValidator(refusingOriginValidator{})), doccomposer.New())
 	e.tight[size] = a
 
 	return a
@@ -688,6 +688,20 @@ func applierReplay(args []string) {
 						twin.Sig = "ok"
 						env.stepVariant(pre, &twin, 0)
 
+						// the same forgeries with an anchoring window that excludes the anchoring time: a window is not a
+						// way around the signature (the window of an operation nobody signed means nothing)
+						if ed.Op.From == 0 && ed.Op.Until == 0 {
+							late := ed.Op
+							late.From = 90
+
+							for v := 0; v < 3; v++ {
+								r2 := env.stepVariant(pre, &late, v)
+								g2 := env.project(r2.next.rm)
+								atomic.AddInt64(&tampers, 1)
+								judge(r2, g2, v, "late-window-")
+							}
+						}
+
 						n := env.conc.variants(&ed.Op)
 						for v := 1; v < n; v++ {
 							r2 := env.stepVariant(pre, &ed.Op, v)
@@ -915,3 +929,9 @@ func applierTrace(args []string) {
 
 	fmt.Fprintf(os.Stderr, "applier trace: %d histories, %d events\n", n, events)
 }
+
+// refusingOriginValidator: an anchor origin validator judges requests that are not anchored yet; anchored
+// operations are applied whatever their origin (every node must reach the same state).
+type refusingOriginValidator struct{}
+
+func (refusingOriginValidator) Validate(_ interface{}) error { return fmt.Errorf("anchor origin not allowed here") }
